@@ -9,10 +9,14 @@ impl BS {
         ensures !self.cov(k, x),
         decreases self.m + 1 - k,
     {
+        reveal_with_fuel(BS::cov, 2);
         if k <= self.m {
+            assert(!self.a(k, x));
             if k < self.m {
                 assert(self.n(k + 1) == self.n(k) / 2);
                 self.lemma_out_of_range_not_cov(k + 1, x / 2);
+            } else {
+                assert(!self.cov(k + 1, x / 2));
             }
         }
     }
